@@ -97,11 +97,14 @@ def render(eng, layout, boards):
             tags['Event'] = 'Verification Cup'
             tags['Scoring'] = 'IMP'
             names = ['Event'] + names + ['Scoring']
-        for n in names:
-            lines.append(sstr.concat(eng, ['[', n, ' "', tags[n], '"]', eol]))
-        if layout['table']:
-            lines.append('[OptimumResultTable "Declarer;Denomination\\2R;Result\\2R"]' + eol)
-            lines += ['N NT  7' + eol, 'S  S 12' + eol]
+        # the table section (a tag followed by rows) sits after the other tags, before them, or between two of them
+        tpos = {'end': len(names), 'start': 0, 'middle': len(names) // 2}[layout.get('table_pos', 'end')] if layout['table'] else None
+        for j, n in enumerate(names + [None]):
+            if j == tpos:
+                lines.append('[OptimumResultTable "Declarer;Denomination\\2R;Result\\2R"]' + eol)
+                lines += ['N NT  7' + eol, 'S  S 12' + eol]
+            if n is not None:
+                lines.append(sstr.concat(eng, ['[', n, ' "', tags[n], '"]', eol]))
     lines += [x + eol for x in layout['after']]
     return lines
 
@@ -178,14 +181,17 @@ def layouts(tier):
         dict(before=[''], between=['', ''], after=['', ''], eol='\n', order=('Deal', 'Vulnerable', 'Dealer', 'Board'), extra=True, header=True, table=False),
         dict(before=['', ' '], between=['\t', '', ''], after=[''], eol='\r\n', order=('Dealer', 'Deal', 'Board', 'Vulnerable'), extra=False, header=True, table=True),
         dict(before=[], between=['  '], after=['', '\t'], eol='\r\n', order=('Vulnerable', 'Board', 'Deal', 'Dealer'), extra=True, header=False, table=True),
+        dict(before=[''], between=[''], after=[''], eol='\n', order=('Board', 'Dealer', 'Vulnerable', 'Deal'), extra=False, header=True, table=True, table_pos='start'),
+        dict(before=[], between=['', ' '], after=[], eol='\r\n', order=('Deal', 'Board', 'Vulnerable', 'Dealer'), extra=True, header=False, table=True, table_pos='middle'),
     ]
     perms = list(itertools.permutations(NEEDED))
-    k = 4 if tier != 'thorough' else 20
+    k = 2 if tier != 'thorough' else 20
     for _ in range(k):
         base.append(dict(before=[rnd.choice(blanks) for _ in range(rnd.randint(0, 2))],
                          between=[rnd.choice(blanks) for _ in range(rnd.randint(1, 3))],
                          after=[rnd.choice(blanks) for _ in range(rnd.randint(0, 2))], eol=rnd.choice(['\n', '\r\n']),
-                         order=rnd.choice(perms), extra=rnd.random() < 0.5, header=rnd.random() < 0.5, table=rnd.random() < 0.5))
+                         order=rnd.choice(perms), extra=rnd.random() < 0.5, header=rnd.random() < 0.5, table=rnd.random() < 0.5,
+                         table_pos=rnd.choice(['end', 'start', 'middle'])))
     return base
 
 
@@ -198,7 +204,7 @@ def cases(tier):
     for j, lay in enumerate(layouts(tier)):
         n = 1 + j % 3
         cs.append((case_pbn, f'PBN layout {j}: {n} boards, blank runs {len(lay["before"])}/{len(lay["between"])}/{len(lay["after"])}, '
-                             f'eol {"CRLF" if lay["eol"] != chr(10) else "LF"}, order {"".join(x[0] + x[1] for x in lay["order"])}, extra={lay["extra"]}, header={lay["header"]}, table={lay["table"]}',
+                             f'eol {"CRLF" if lay["eol"] != chr(10) else "LF"}, order {"".join(x[0] + x[1] for x in lay["order"])}, extra={lay["extra"]}, header={lay["header"]}, table={lay["table"] and lay.get("table_pos", "end")}',
                    dict(layout=lay, n=n, sym_i=j % n, id_len=2 + j % 2)))
     # the hand codec that the PBN cases replace by its contract (round trip, canonical text, and: every decode hands out a
     # set of its own - parsed boards are consumed in place by the play engine) is discharged here on a few suit shapes;
@@ -213,8 +219,8 @@ def cases(tier):
 META = dict(
     level='model_checking',
     bounds=lambda tier: {'json': 'lists of 0..3 boards, one fully symbolic board (dealer, vulnerability, 52-bit deal, id of 3 unconstrained code points, optional dda) at each position',
-                         'pbn': ('8' if tier != 'thorough' else '24') + ' layouts (4 fixed, the rest seeded): 0..3 games; blank-line runs 0..2 before, 1..3 between, 0..2 after (empty, blanks, tabs); LF / CRLF; any order of the four needed tags; '
-                                'additional tags; % header lines; a table section with rows; per layout one board symbolic: dealer, vulnerability in every accepted spelling, first seat of the deal, board id of 2..3 symbolic characters over the property alphabet'},
+                         'pbn': ('8' if tier != 'thorough' else '26') + ' layouts (6 fixed, the rest seeded): 0..3 games; blank-line runs 0..2 before, 1..3 between, 0..2 after (empty, blanks, tabs); LF / CRLF; any order of the four needed tags; '
+                                'additional tags; % header lines; a table section with rows after, before or between the other tags; per layout one board symbolic: dealer, vulnerability in every accepted spelling, first seat of the deal, board id of 2..3 symbolic characters over the property alphabet'},
     stubs=['json layer as in C12', 'deal-line hand codec replaced by its contract (C14)'],
     assumptions=['regular expressions by the sre-semantics model', 'PBN comments (; and {}) are not generated (the property does not list them)'],
     rule='feasible paths of the real parsers on a symbolic board inside a rendered file',
